@@ -1,6 +1,7 @@
 package astx
 
 import (
+	"strings"
 	"fmt"
 	"reflect"
 
@@ -10,7 +11,23 @@ import (
 )
 
 // Marker returns a byte string that cannot occur in printer glue or canonical lexemes.
-func Marker(tag string, i, j int) []byte { return []byte(fmt.Sprintf("\x01%s%d.%d\x02", tag, i, j)) }
+func Marker(tag string, i, j int) []byte {
+	return []byte(fmt.Sprintf("%s\x01%s%d.%d\x02%s", MarkerPre, tag, i, j, MarkerSuf))
+}
+
+// MarkerPre / MarkerSuf wrap every marker in text of the caller's choice (e.g. something that looks like an open or a close
+// tag: the printer derives its mode from the text of the chunks it writes). UnwrapMarkers removes the wrapping from output.
+var MarkerPre, MarkerSuf string
+
+func UnwrapMarkers(out string) string {
+	if MarkerSuf != "" {
+		out = strings.Replace(out, "\x02"+MarkerSuf, "\x02", -1)
+	}
+	if MarkerPre != "" {
+		out = strings.Replace(out, MarkerPre+"\x01", "\x01", -1)
+	}
+	return out
+}
 
 // SlotSpec says how one field of a synthetic node is filled.
 type SlotSpec struct {
